@@ -26,6 +26,7 @@ ROUND2_FIX = {
  "C07c": "C07 drove read_chunks directly, never Archive::chunk_stream on a source with repeated chunks -> chunk_stream leg over all subsets",
  "C08d": "the scripted file was 12 bytes: sizes beyond 64 KiB unreachable -> read_at / read_chunks around 2^16..2^18 on a 300 kB file",
  "C11c": "C11 had no run starting from the debris of a failed run -> stale temp file in every other run of the stdin leg",
+ "C10c": "windows of C10 were 1..4 and of C09 at most 256: 32-bit wrap-around of the RollSum sums never happened -> windows 4200 / 6000 / 16384 in C09's sweep and a large-window family in C10",
  "C12d": "every compress of the C12 binary leg wrote to a fresh path -> one --force-create run per group over an existing, longer file",
  "C13c": "the strace leg used 64-byte hashes only -> every case also with --hash-length 16",
  "C14d": "the quick grid passed no extra option on 'output exists' cells -> --verify-output on every existing-file state",
